@@ -5,7 +5,8 @@ CHECK = dict(
          "outputs of the requested key summing to >= the amount with change = excess, failures are classed from the totals; "
          "ReserveParticular, Cancel, Expire. TLC checks NoOverlap/Consistent on every call sequence of the bounded instance "
          "and exports the calls; each sequence is run on a fresh real utxoKeeper and the recorded results and table snapshots "
-         "are validated by TLC (trace validation), as are seeded concurrent workloads, for which TLC searches a linearisation.",
+         "are validated by TLC (trace validation), as are seeded concurrent workloads, for which TLC searches a linearisation."
+         " A second instance lets the listing of outputs move between the calls (pool announcement, pool removal event, confirmation: Keeper.tla Move): a move never changes who holds an output.",
     design_ref="DESIGN.md §6 C26",
     note="UTXO sets and height fixed per behaviour; amounts > 0. Known finding: an output listed as confirmed and "
          "unconfirmed is counted (and can be reserved) twice.",
